@@ -23,6 +23,7 @@ RULE = ('one evaluation = one seeded sequence of 15-150 backend calls (add, get,
         'for backend TIMEOUT in {300, None, 5, 0, 2.5} x KEY_PREFIX x VERSION x SHARDS x KEY_FUNCTION (default, or one that prefixes a tenant switched between calls); every result and exception class is compared '
         'with ModelDjango; non-trivial = at least 10 calls; distinct = SHA-256 of (parameters, program)')
 RULE += ' ' + 'Values include str / int subclasses and bools, compared by type.'
+RULE += ' ' + 'In 40 % of the get_or_set calls with a callable, the callable lets a second backend object store the key meanwhile.'
 ASSUMPTIONS = ['outcomes the contract leaves open are accepted either way: return value of set/clear/set_many success, delete() of an expired key',
                'live <=> expire_time > now (zero or negative timeout means already expired)']
 PROBES = ('expired_lookups', 'version_ops', 'tie_instant_reached')
@@ -88,6 +89,8 @@ def gen_case(seed, tier):
             op = {'op': 'delete_many', 'ks': distinct_keys(rng.sample(KEYS, rng.randint(0, 3))), 'version': ver}
         elif r < 0.84:
             op = {'op': 'get_or_set', 'k': k, 'v': v, 'callable': rng.random() < 0.4, 'timeout': to, 'version': ver}
+            if op['callable'] and rng.random() < 0.4:
+                op['racing'] = 'raced-%d' % i
         elif r < 0.89:
             op = {'op': rng.choice(('incr_version', 'decr_version')), 'k': k, 'delta': rng.choice((1, 1, 2, 1, 1, 2, 0, -1)), 'version': ver}
         elif r < 0.92:
@@ -254,8 +257,15 @@ def step(cache, m, op, now, DEFAULT):
         v = vals.dec(op['v'])
         calls = []
 
+        racing = op.get('racing') if op.get('callable') else None
+        other = getattr(cache, 'other_worker', None)
+
         def make():
             calls.append(1)
+            if racing and other is not None:
+                # while this worker computes the default, another worker (its own backend object on the same directory)
+                # stores the key: get_or_set returns what the cache holds afterwards, so that both workers agree
+                other.set(op['k'], racing, None, *pa, **kw)
             return v
         dflt = make if op.get('callable') else v
         got = _norm(lambda: cache.get_or_set(op['k'], dflt, rto, *pa, **kw))
@@ -265,6 +275,9 @@ def step(cache, m, op, now, DEFAULT):
             if calls:
                 return got, ('exc', 'callable-invoked-on-hit'), False
             return got, ('ok', it[0]), False
+        if racing and other is not None:
+            m.store(fk, fp(racing), None, now)
+            return got, ('ok', fp(racing)), False
         m.store(fk, fp(v), to, now)
         it = m.live(fk, now)
         return got, ('ok', it[0] if it else fp(v)), False
@@ -313,6 +326,7 @@ def run_case(case):
             tenant = [0]
             params['KEY_FUNCTION'] = lambda key, key_prefix, version: 't%d/%s:%s:%s' % (tenant[0], key_prefix, version, key)
         cache = mod.DjangoCache(world.path('dj'), params)
+        cache.other_worker = mod.DjangoCache(world.path('dj'), params)
         m = ModelDjango(params)
         m.tenant = tenant
         for idx, op in enumerate(case['prog']):
@@ -340,6 +354,7 @@ def run_case(case):
                 problems, empties, info = audit(sh.directory)
                 if problems:
                     violations.append({'rule': 'C19/audit', 'sig': ','.join(sorted({p[0] for p in problems})), 'detail': str(problems[:3])})
+        cache.other_worker.close()
         cache.close()
     finally:
         world.close()
